@@ -312,6 +312,36 @@ impl Sys {
                 Ok("ok".into())
             }
             ["pump0"] => Ok("ok".into()),
+            // Age a key set without moving the clock: rewrite the stored next-update time of
+            // the manifest/CRL revision of the given set(s) of every class of the CA to
+            // now + <hours_left> hours (ca_objects/<ca>.json is read from storage on every use).
+            ["age", ca, which, hours_left] => {
+                let hours: i64 = hours_left.parse().expect("hours");
+                let ns = Ident::boxed_from_string("ca_objects".to_string()).unwrap();
+                let kv = krill.storage().open(&ns).map_err(|e| Error::custom(e.to_string()))?;
+                let key = Ident::boxed_from_string(format!("{ca}.json")).unwrap();
+                let v: Option<Value> = kv.get(None, &key).map_err(|e| Error::custom(e.to_string()))?;
+                let Some(mut v) = v else { return Ok("ok:no-objects".into()) };
+                let when = chrono::Utc::now() + chrono::Duration::hours(hours);
+                let stamp = when.to_rfc3339_opts(chrono::SecondsFormat::Nanos, true);
+                let mut n = 0;
+                if let Some(classes) = v.get_mut("classes").and_then(|c| c.as_object_mut()) {
+                    for (_, class) in classes.iter_mut() {
+                        if let Some(keys) = class.get_mut("keys").and_then(|k| k.as_object_mut()) {
+                            for (name, set) in keys.iter_mut() {
+                                let role = name.trim_end_matches("_set");
+                                if !name.ends_with("_set") || !(*which == "all" || *which == role) { continue; }
+                                if let Some(rev) = set.get_mut("revision").and_then(|r| r.as_object_mut()) {
+                                    rev.insert("next_update".into(), Value::String(stamp.clone()));
+                                    n += 1;
+                                }
+                            }
+                        }
+                    }
+                }
+                kv.store(None, &key, &v).map_err(|e| Error::custom(e.to_string()))?;
+                Ok(format!("ok:{n}"))
+            }
             // Play the scheduler by hand: run everything due, schedule the named task, claim it
             // (it is now in the running state) – the task's work itself is done by later ops.
             ["claim", name] => {
